@@ -62,6 +62,7 @@ def setup(rep, tier):
     rep.minimum('R02.3', 5)
     rep.minimum('R02.4', 15)
     rep.minimum('R02.5', 1)
+    rep.minimum('R02.6', 1)
 
 
 def coder_calls(f):
@@ -487,7 +488,118 @@ def r02_5(rep, prog):
         rep.holds('R02.5', inst, f.where(), '%d call sites' % n)
 
 
+# ------------------------------------------------------------------ R02.6
+_IN_SAMPLES = {400: 120, 200: 240, 100: 480, 50: 960, 25: 1920, 16: 2880, 12: 3840, 10: 4800, 8: 5760}
+_TOC_OK = {1000: {100: 480, 50: 960, 25: 1920, 16: 2880}, 1001: {100: 480, 50: 960}, 1002: {400: 120, 200: 240, 100: 480, 50: 960}}
+
+
+def r02_6(rep, prog):
+    """the packet emitted when the byte budget is too low for real coding ('PLC frames') still announces
+    exactly the submitted duration: (mode, frame rate, frame-count code) at the TOC store, for every
+    submitted frame size x encoder mode x {1 byte, more}, by interval analysis of that region alone"""
+    from .. import absint
+    f = prog.fn('opus_encode_native')
+    cg = cfgm.CFG(f)
+    rep.functions.add(f.name)
+    sinks = [(b, i, c) for b, i, c in T.calls_to(cg, 'gen_toc') if sx.kind(sx.strip(c[2][0])) == 'local' and sx.kind(sx.strip(c[2][1])) == 'local']
+    if len(sinks) != 1:
+        rep.unresolved('R02.6', '%s: expected one gen_toc(local mode, local rate, ...) site in opus_encode_native, found %d' % (prog.config, len(sinks)))
+        return
+    sb, si, sc = sinks[0]
+    lmode, lrate = sx.strip(sc[2][0]), sx.strip(sc[2][1])
+    # region entry: the block declaring the TOC mode local
+    start = None
+    for b, i, s_ in cg.positions():
+        if sx.kind(s_) == 'decls' and any(d[0] == 'decl' and d[2] == lmode[2] for d in s_[1]):
+            start = b
+    if start is None or not cg.dominates(start, sb):
+        rep.unresolved('R02.6', '%s: the low-budget region (declaration of `%s`) was not found' % (prog.config, lmode[1]))
+        return
+    # the frame-count code: the local or-ed into data[0] after the TOC store; the count byte data[1]
+    code = nmf = None
+    for b, i, s_ in cg.positions():
+        if not cg.dominates(start, b):
+            continue
+        if s_[0] == 'cassign' and sx.kind(sx.strip(s_[2])) == 'idx' and sx.int_val(sx.strip(s_[2])[2]) == 0 and sx.kind(sx.strip(s_[3])) == 'local':
+            code = (b, i, sx.strip(s_[3]))
+        if s_[0] == 'assign' and sx.kind(sx.strip(s_[1])) == 'idx' and sx.int_val(sx.strip(s_[1])[2]) == 1 and sx.kind(sx.strip(s_[2])) == 'local':
+            nmf = (b, i, sx.strip(s_[2]))
+    if code is None or nmf is None:
+        rep.unresolved('R02.6', '%s: frame-count code / count byte stores not found in the low-budget region (%s, %s)' % (prog.config, code, nmf))
+        return
+    # is "100 ms into one byte" refused before the region?
+    refused = False
+    for b in cg.blocks:
+        c = cg.cond(b)
+        if c is None:
+            continue
+        cs = sx.strip(c)
+        if not (sx.kind(cs) == 'bin' and cs[1] == '==' and any(sx.kind(y) == 'bin' and y[1] == '*' and 10 in (sx.int_val(y[2]), sx.int_val(y[3])) for y in sx.walk(cs))):
+            continue
+        tgt = [s2 for s2, pol in cg.edges(b) if pol is True]
+        if not tgt or not any(sx.kind(x) == 'ret' and len(x) > 1 and (sx.int_val(x[1]) or 0) < 0 for x in cg.blocks[tgt[0]]['stmts']):
+            continue
+        for q in cg.pred[b]:
+            cq = cg.cond(q)
+            cqs = sx.strip(cq) if cq is not None else None
+            if cqs is not None and sx.kind(cqs) == 'bin' and cqs[1] == '==' and sx.int_val(cqs[3]) == 1 and (b, True) in cg.edges(q) and cg.dominates(q, start) and len(cg.pred[b]) == 1:
+                refused = True
+    pst = [p for p in f.params if p['name'] == 'st']
+    kst = ('param', f.param_index('st'))
+    kout = ('param', f.param_index('out_data_bytes'))
+    n = 0
+    bad = []
+    for rate_in, samples in sorted(_IN_SAMPLES.items()):
+        for mode in (0, 1000, 1001, 1002):
+            for one in (True, False):
+                if one and rate_in == 10 and refused:
+                    continue
+                entry = {('local', lrate[2]): absint.const(rate_in), ('field', kst, 'mode'): absint.const(mode),
+                         kout: absint.const(1) if one else absint.mk(2, 7650)}
+                an = absint.Analyzer(prog, f, entry_state=entry, start=start, call_summary=absint.inline_summary(prog), havoc_fields_on_call=False)
+                st = an.state_at(sb, si)
+                if st is None:
+                    bad.append((rate_in, mode, one, 'TOC store unreachable'))
+                    continue
+                vm = absint.values(an.lookup(st, ('local', lmode[2]), absint.mk(-2**31, 2**31 - 1)), 8)
+                vr = absint.values(an.lookup(st, ('local', lrate[2]), absint.mk(-2**31, 2**31 - 1)), 8)
+                st2 = an.state_at(code[0], code[1])
+                vc = absint.values(an.lookup(st2, ('local', code[2][2]), absint.mk(-2**31, 2**31 - 1)), 8) if st2 is not None else None
+                n += 1
+                if not vm or not vr or not vc or len(vm) != 1 or len(vr) != 1 or len(vc) != 1:
+                    bad.append((rate_in, mode, one, 'not a single TOC: mode %s rate %s code %s' % (vm, vr, vc)))
+                    continue
+                m, r, k = vm[0], vr[0], vc[0]
+                if m not in _TOC_OK or r not in _TOC_OK[m]:
+                    bad.append((rate_in, mode, one, 'TOC (mode %d, %d frames/s) does not exist' % (m, r)))
+                    continue
+                if k == 0:
+                    cnt = 1
+                elif k in (1, 2):
+                    cnt = 2
+                else:
+                    st3 = an.state_at(nmf[0], nmf[1])
+                    vn = absint.values(an.lookup(st3, ('local', nmf[2][2]), absint.mk(-2**31, 2**31 - 1)), 8) if st3 is not None else None
+                    if not vn or len(vn) != 1:
+                        bad.append((rate_in, mode, one, 'frame count byte not a single value: %s' % (vn,)))
+                        continue
+                    cnt = vn[0]
+                if cnt * _TOC_OK[m][r] != samples:
+                    bad.append((rate_in, mode, one, 'announces %d x %d samples (mode %d, code %d) for a %d-sample frame (48 kHz units)' % (cnt, _TOC_OK[m][r], m, k, samples)))
+    inst = '%s:the low-budget packet announces exactly the submitted duration' % prog.config
+    where = '%s:%s' % (f.file, sx.line(sc))
+    if n < 60:
+        rep.unresolved('R02.6', inst + ': only %d (frame size, mode, budget) cases analysed' % n)
+    elif bad:
+        r0 = bad[0]
+        rep.violated('R02.6', inst, where, 'submitted %d frames/s, st->mode=%d, %s: %s  (%d of %d cases disagree)' % (r0[0], r0[1], 'one output byte' if r0[2] else 'two or more output bytes', r0[3], len(bad), n),
+                     key='low-budget-toc')
+    else:
+        rep.holds('R02.6', inst, where, '%d cases (9 frame sizes x 4 modes x {1 byte, more}%s), region started at the declaration of `%s`' % (n, ', 100 ms into 1 byte refused earlier' if refused else '', lmode[1]))
+
+
 def check(rep, prog, tier):
+    r02_6(rep, prog)
     pt = PointsTo(prog)
     n = r02_1(rep, prog, pt)
     if n < 9:
